@@ -1,5 +1,6 @@
 import CLModel.Proofs.Primary
 import CLModel.Model.Issuance
+import CLModel.Proofs.KeyProof
 import CLModel.Proofs.Guards
 import Mathlib.Tactic.Linarith
 import Mathlib.Tactic.Abel
@@ -227,5 +228,48 @@ the key is named in `xr_cap` except the legacy `master_secret`, and every name o
 generator of the key -/
 theorem key_proof_names_from_source :
     Gen.keyProofExemptsOnlyMasterSecret = true ∧ Gen.keyProofNamesMustBeInKey = true := ⟨rfl, rfl⟩
+
+section keyproof
+variable {G : Type} [AddCommGroup G] [DecidableEq G] (enc : G → ByteArray)
+
+/-- **the key-correctness proof is complete**: for a key built from exponents (`Z = xz • S`, every
+covered generator `R_k = xr_k • S`), whose generators are all covered except possibly the legacy
+`master_secret`, the model issuer's proof (`newKeyProof`) is accepted by the holder's check
+(`checkKeyProof`) — any number of attributes, any exponents and masks, any hash function -/
+theorem key_proof_complete (H : List ByteArray → ℤ) (pk : PubKey G) (xz xzTilde : ℤ)
+    (covered : List (String × ℤ × ℤ)) (hz : pk.z = xz • pk.s) (hcov : CoveredOk pk covered)
+    (hall : ∀ k ∈ keys pk.r, k ∈ covered.map (·.1) ∨ k = "master_secret") :
+    ∃ p, newKeyProof (addOps enc) H pk xz xzTilde covered = .ok p ∧
+      checkKeyProof (addOps enc) H pk p = .ok true := by
+  set c := H [cat ([enc pk.z] ++ (covered.map fun e => e.2.1 • pk.s).map enc ++ [enc (xzTilde • pk.s)] ++
+    (covered.map fun e => e.2.2 • pk.s).map enc)] with hc
+  refine ⟨⟨c, xzTilde + c * xz, covered.map fun e => (e.1, e.2.2 + c * e.2.1)⟩, ?_, ?_⟩
+  · simp only [newKeyProof, addOps_pow, Outcome.bind_ok, keyProofTildes_value enc pk covered hcov,
+      Outcome.map_ok, addOps_enc, addOps_enc_fn, ← hc]
+  · have hnames : keys (covered.map fun e => (e.1, e.2.2 + c * e.2.1)) = covered.map (·.1) := by
+      simp [keys, List.map_map, Function.comp_def]
+    have h1 : (keys pk.r).any (fun k => !(covered.map (·.1)).contains k && k != "master_secret") = false := by
+      rw [List.any_eq_false]
+      intro k hk
+      rcases hall k hk with h | h
+      · have : (covered.map (·.1)).contains k = true := List.contains_iff_mem.mpr h
+        simp only [this, Bool.not_true, Bool.false_and]
+        simp
+      · simp [h]
+    have h2 : (covered.map (·.1)).any (fun k => (lookup k pk.r).isNone) = false := by
+      rw [List.any_eq_false]
+      intro k hk
+      simp only [List.mem_map] at hk
+      obtain ⟨e, he, rfl⟩ := hk
+      simp [hcov e he]
+    simp only [checkKeyProof, hnames, h1, h2, Bool.false_eq_true, if_false, addOps_inv, addOps_pow,
+      Outcome.bind_ok, keyProofLoop_value enc pk c covered hcov, addOps_mul, addOps_enc, addOps_enc_fn]
+    have hzc : (c • (-pk.z) + (xzTilde + c * xz) • pk.s) = xzTilde • pk.s := by rw [hz]; module
+    simp only [hzc]
+    have hb : (H [cat ([enc pk.z] ++ (covered.map fun e => e.2.1 • pk.s).map enc ++ [enc (xzTilde • pk.s)] ++
+        (covered.map fun e => e.2.2 • pk.s).map enc)] == c) = true := by rw [← hc]; simp
+    simp only [hb, if_true]
+
+end keyproof
 
 end CL.C05
